@@ -318,6 +318,9 @@ class Normaliser:
             if op == "sqrt":
                 n, d = self._pair(t.args[0])
                 i = self.idx[self.gen_of[t.id]]
+                if n == 0:
+                    self.nf[t.id] = (R_.zero, R_.one)  # sqrt of an identically-zero radicand
+                    return
                 if d == R_.one:
                     self.rel[i] = n
                     self.rel_order.insert(0, i)
